@@ -22,6 +22,8 @@ Every item TRANSLATES a piece of the current source into a Lean term (never comp
   fttools.fourier_resample         -> resamplePre / resamplePost (shift pair), resampleOut0/1 (axis length x zoom factor)
   RichData.r / .t, Slices polar cache, exact_x / exact_y, exact_xy -> three-valued facts richPolarBinds / slicesPolarBinds /
                                       exact1dBinds / exact2dBinds (which coordinate reaches which argument / interpolator axis)
+  coordinates.uniform_cart_to_polar + Slices.az* + estimate_size -> polarRhoAxis / polarPhiAxis / polarRhoLen / polarPhiLen,
+                                      azReduceAxes, estSizeAxes (which array axis is rho, which is phi, who reduces / searches along which)
   Wavefront.pad2d / Wavefront.crop -> three-valued facts: every parameter of the delegated call is bound to the
                                       like-named argument (keyword or positional spelling is irrelevant)
 
@@ -916,93 +918,182 @@ def generate(repo):
     g.fact('wavefrontCropDelegates', 'prysm/propagation.py:Wavefront.crop',
            delegates('crop', 'crop_center', {'img': 'self.data', 'out_shape': 'out_shape'}))
 
+    # ================================================================================================
+    # session 3 items.  Shared reading helpers first.
+    # ================================================================================================
+    def flat(stmts):
+        """statements in source order, descending into if / else bodies (straight-line reading of guarded code)"""
+        for st in stmts:
+            if isinstance(st, ast.If):
+                yield from flat(st.body)
+                yield from flat(st.orelse)
+            else:
+                yield st
+
+    def resolve(e, fn, stop=()):
+        """expression e with single-assignment locals of fn replaced by their values; `a, b = V` (V a name / attribute /
+        subscript) makes a -> V[0], b -> V[1]"""
+        params = set(sum(params_of(fn), []))
+        for _ in range(8):
+            e2 = expand_locals(e, fn, stop=stop)
+            m = {}
+            for st in ast.walk(fn):
+                if isinstance(st, ast.Assign) and len(st.targets) == 1 and isinstance(st.targets[0], ast.Tuple) \
+                        and isinstance(st.value, (ast.Name, ast.Attribute, ast.Subscript)):
+                    for k, t in enumerate(st.targets[0].elts):
+                        if isinstance(t, ast.Name) and t.id in _free_names(e2) and t.id not in params and t.id not in stop:
+                            m[t.id] = ast.Subscript(value=copy.deepcopy(st.value), slice=ast.Constant(value=k), ctx=ast.Load())
+            if m:
+                e2 = subst(e2, m)
+            if ast.dump(e2) == ast.dump(e):
+                return e2
+            e = e2
+        return e
+
+    def shape_env(bases, rat=True):
+        env = {}
+        for base in bases:
+            for idx, nm in (('0', 'm'), ('1', 'n'), ('-2', 'm'), ('-1', 'n')):
+                env[f'{base}[{idx}]'] = f'(({nm} : Int) : Rat)' if rat else nm
+        return env
+
     # ---- psf.autocrop: the window cut around the (integer part of the) centroid, per axis
     def autocrop():
         fn = inl(psf, 'autocrop')
         pos, _ = params_of(fn)
         data, px = pos[0], pos[1]
-        # the local holding centroid(data, unit='pixels') and the pair unpacked from it, in axis order
         cen = get_def(psf, 'centroid')
         coms = []
         for st in ast.walk(fn):
-            if isinstance(st, ast.Assign) and isinstance(st.value, ast.Call) and last_attr(st.value.func) == 'centroid':
-                b = bind_call(st.value, cen)
-                if ast.unparse(b.get('data')) != data or not isinstance(b.get('unit'), ast.Constant) or b['unit'].value == 'spatial':
-                    raise Untranslatable('autocrop does not ask centroid(data) for pixel units')
+            if isinstance(st, ast.Assign) and isinstance(st.value, ast.Call):
+                if last_attr(st.value.func) == 'centroid':
+                    b = bind_call(st.value, cen)
+                    if ast.unparse(b.get('data')) != data or not isinstance(b.get('unit'), ast.Constant) or b['unit'].value == 'spatial':
+                        raise Untranslatable('autocrop does not ask centroid(data) for pixel units')
+                elif last_attr(st.value.func) == 'center_of_mass':
+                    if [ast.unparse(a) for a in st.value.args] != [data] or st.value.keywords:
+                        raise Untranslatable('center_of_mass of something else')
+                else:
+                    continue
                 coms += [t.id for t in st.targets if isinstance(t, ast.Name)]
         if len(coms) != 1:
-            raise Untranslatable('no single local holding centroid(data, unit=pixels)')
+            raise Untranslatable('no single local holding the pixel centroid of data')
+        com = coms[0]
+
+        def is_int_of(e, inner):
+            return isinstance(e, ast.Call) and last_attr(e.func) in ('int', 'floor') and len(e.args) == 1 and ast.unparse(e.args[0]) == inner
         env = {px: 'px'}
         for st in fn.body:
             if isinstance(st, ast.Assign) and isinstance(st.targets[0], ast.Tuple) and len(st.targets[0].elts) == 2:
+                names = [ast.unparse(t) for t in st.targets[0].elts]
+                if isinstance(st.value, ast.Tuple) and len(st.value.elts) == 2 \
+                        and all(is_int_of(e, f'{com}[{k}]') for k, e in enumerate(st.value.elts)):
+                    env.update({names[0]: 'c0', names[1]: 'c1'})
+                    continue
                 try:
                     elt, binds = comp_parts(st.value)
                 except Untranslatable:
                     continue
-                if list(binds.values()) == [coms[0]] and isinstance(elt, ast.Call) and last_attr(elt.func) in ('int', 'floor') \
-                        and ast.unparse(elt.args[0]) == list(binds)[0]:
-                    for k, t in enumerate(st.targets[0].elts):
-                        env[t.id] = f'c{k}'
+                if list(binds.values()) == [com] and is_int_of(elt, list(binds)[0]):
+                    env.update({names[0]: 'c0', names[1]: 'c1'})
+            elif isinstance(st, ast.Assign) and isinstance(st.targets[0], ast.Name):
+                for k in (0, 1):
+                    if is_int_of(st.value, f'{com}[{k}]'):
+                        env[st.targets[0].id] = f'c{k}'
         if sorted(v for v in env.values() if v != 'px') != ['c0', 'c1']:
-            raise Untranslatable('no `cy, cx = (int(c) for c in com)`')
-        env = straight_env(fn, env)
+            raise Untranslatable('the integer centroid pair is not found')
         (ret,) = find_returns(fn)
-        if not (isinstance(ret, ast.Subscript) and ast.unparse(ret.value) == data and isinstance(ret.slice, ast.Tuple)
-                and len(ret.slice.elts) == 2 and all(isinstance(s_, ast.Slice) and s_.lower is not None and s_.upper is not None
-                                                     and s_.step is None for s_ in ret.slice.elts)):
-            raise Untranslatable('autocrop does not return data[lo0:hi0, lo1:hi1]')
+        if not (isinstance(ret, ast.Subscript) and ast.unparse(ret.value) == data):
+            raise Untranslatable('autocrop does not return a cut of data')
+        stop = [k for k in env]
+        idx = resolve(ret.slice, fn, stop=stop)
+        if not (isinstance(idx, ast.Tuple) and len(idx.elts) == 2):
+            raise Untranslatable('autocrop does not return data[<rows>, <cols>]')
         tr = Tr(env)
         out = []
-        for k, s_ in enumerate(ret.slice.elts):
-            out.append(f'def autocropLo{k} (c0 c1 px : Int) : Int := {tr.expr(s_.lower)}')
-            out.append(f'def autocropHi{k} (c0 c1 px : Int) : Int := {tr.expr(s_.upper)}')
+        for k, s_ in enumerate(idx.elts):
+            if isinstance(s_, ast.Call) and last_attr(s_.func) == 'slice' and len(s_.args) == 2 and not s_.keywords:
+                lo, hi = s_.args
+            elif isinstance(s_, ast.Slice) and s_.lower is not None and s_.upper is not None and s_.step is None:
+                lo, hi = s_.lower, s_.upper
+            else:
+                raise Untranslatable('window axis is not lo:hi')
+            out.append(f'def autocropLo{k} (c0 c1 px : Int) : Int := {tr.expr(resolve(lo, fn, stop=stop))}')
+            out.append(f'def autocropHi{k} (c0 c1 px : Int) : Int := {tr.expr(resolve(hi, fn, stop=stop))}')
         return '\n'.join(out)
     g.item('autocrop.window', 'prysm/psf.py:autocrop', lambda: get_def(psf, 'autocrop'), autocrop,
            '\n'.join(f'def autocropLo{k} (c0 c1 px : Int) : Int := {M}.autocropLo c{k} px\n'
                      f'def autocropHi{k} (c0 c1 px : Int) : Int := {M}.autocropHi c{k} px' for k in (0, 1)))
 
-    # ---- psf.estimate_size: the coordinates built when only dx is given (`y, x = (fftrange(s)*dx for s in data.shape)`)
-    #      and which of them is handed to uniform_cart_to_polar as x / y
+    # ---- psf.estimate_size: the coordinates built when only dx is given and which of them reaches uniform_cart_to_polar as x / y
     def est_size():
         fn = inl(psf, 'estimate_size')
         ucp = get_def(co, 'uniform_cart_to_polar')
-        state, elem_term = {}, None
-        for st in ast.walk(fn):
-            if isinstance(st, ast.Assign) and isinstance(st.targets[0], ast.Tuple) and len(st.targets[0].elts) == 2 \
-                    and all(isinstance(t, ast.Name) for t in st.targets[0].elts):
+
+        def vec_term(elt, length, svar=None):
+            """sample k of a coordinate vector expression built from the axis length `length` ('m' | 'n')"""
+            sr = f'(({length} : Int) : Rat)'
+
+            lens = {'((m : Int) : Rat)': 'm', '((n : Int) : Rat)': 'n'}
+
+            def _fftrange(args):
+                if args[0] not in lens:
+                    raise Untranslatable('fftrange of something other than an axis length')
+                return f'(((fftrangeLo {lens[args[0]]} + k : Int)) : Rat)'
+
+            def _arange(args):
+                if len(args) == 1 and args[0] in lens:
+                    return '((k : Int) : Rat)'
+                if len(args) == 2:                     # arange(lo, hi): sample k is lo + k (the length is checked by the sweep)
+                    return f'({args[0]} + ((k : Int) : Rat))'
+                raise Untranslatable('arange form')
+            env = {'dx': 'dx'}
+            if svar:
+                env[svar] = sr
+            env.update({k_: v for k_, v in shape_env(['data.shape']).items()})
+            return Tr(env, mode='rat', funcs={'fftrange': _fftrange, 'np.arange': _arange, 'arange': _arange}).expr(elt)
+        state = {}
+        for st in flat(fn.body):
+            if not isinstance(st, ast.Assign) or len(st.targets) != 1:
+                continue
+            tg = st.targets[0]
+            if isinstance(tg, ast.Tuple) and len(tg.elts) == 2 and all(isinstance(t, ast.Name) for t in tg.elts):
                 try:
                     elt, binds = comp_parts(st.value)
                 except Untranslatable:
+                    if isinstance(st.value, ast.Tuple) and len(st.value.elts) == 2:
+                        for t, v in zip(tg.elts, st.value.elts):     # `y, x = <vec of shape[0]>, <vec of shape[1]>`
+                            try:
+                                uses = {k_ for k_ in ('m', 'n') if f'({k_} : Int)' in vec_term(v, 'm')}
+                                state[t.id] = (vec_term(v, 'm'), uses)
+                            except Untranslatable:
+                                pass
                     continue
-                if list(binds.values()) != ['data.shape']:
+                src = list(binds.values())
+                if src == ['data.shape']:
+                    order = ('m', 'n')
+                elif src in (['data.shape[::-1]'], ['reversed(data.shape)']):
+                    order = ('n', 'm')
+                else:
                     continue
-                s = list(binds)[0]
-                sr = '((s : Int) : Rat)'
-
-                def _fftrange(args):
-                    if args[0] != sr:
-                        raise Untranslatable('fftrange of something other than the axis length')
-                    return '(((fftrangeLo s + i : Int)) : Rat)'
-                arange = lambda args: '((i : Int) : Rat)' if args == [sr] else (_ for _ in ()).throw(Untranslatable('arange form'))  # noqa: E731
-                tr = Tr({s: sr, 'dx': 'dx'}, mode='rat',
-                        funcs={'fftrange': _fftrange, 'np.arange': arange, 'arange': arange})
-                elem_term = tr.expr(elt)
-                for k, t in enumerate(st.targets[0].elts):
-                    state[t.id] = k
-        if elem_term is None:
-            raise Untranslatable('no `y, x = (... for s in data.shape)`')
+                for t, ln in zip(tg.elts, order):
+                    state[t.id] = (vec_term(elt, ln, list(binds)[0]), {ln})
+            elif isinstance(tg, ast.Name) and tg.id in ('x', 'y') or isinstance(tg, ast.Name) and tg.id not in state:
+                try:
+                    term = vec_term(st.value, 'm')
+                except Untranslatable:
+                    continue
+                if '(k : Int)' in term or 'fftrangeLo' in term:
+                    state[tg.id] = (term, {k_ for k_ in ('m', 'n') if f'({k_} : Int)' in term or f'fftrangeLo {k_}' in term})
         calls = find_calls(fn, 'uniform_cart_to_polar')
         if len(calls) != 1:
             raise Untranslatable('no single call of uniform_cart_to_polar')
         b = bind_call(calls[0], ucp)
         if ast.unparse(b.get('data')) != 'data' or ast.unparse(b.get('x')) not in state or ast.unparse(b.get('y')) not in state:
             raise Untranslatable('uniform_cart_to_polar arguments')
-        length = {0: 'm', 1: 'n'}
-        return (f'def estSizeElem (s i : Int) (dx : Rat) : Rat := {elem_term}\n'
-                f'def estSizeX (m n : Int) (dx : Rat) (k : Int) : Rat := estSizeElem {length[state[ast.unparse(b["x"])]]} k dx\n'
-                f'def estSizeY (m n : Int) (dx : Rat) (k : Int) : Rat := estSizeElem {length[state[ast.unparse(b["y"])]]} k dx')
+        return (f'def estSizeX (m n : Int) (dx : Rat) (k : Int) : Rat := {state[ast.unparse(b["x"])][0]}\n'
+                f'def estSizeY (m n : Int) (dx : Rat) (k : Int) : Rat := {state[ast.unparse(b["y"])][0]}')
     g.item('estimate_size.grid', 'prysm/psf.py:estimate_size', lambda: get_def(psf, 'estimate_size'), est_size,
-           f'def estSizeElem (s i : Int) (dx : Rat) : Rat := {M}.gridElem s i dx\n'
            f'def estSizeX (m n : Int) (dx : Rat) (k : Int) : Rat := {M}.vecX m n dx k\n'
            f'def estSizeY (m n : Int) (dx : Rat) (k : Int) : Rat := {M}.vecY m n dx k')
 
@@ -1010,14 +1101,13 @@ def generate(repo):
     def rich_support():
         out = []
         for prop, lean in (('support_x', 'supportX'), ('support_y', 'supportY')):
-            (fn,) = [n for n in get_def(rd, 'RichData').body if isinstance(n, ast.FunctionDef) and n.name == prop]
-            ret = the_return(fn.body)
+            fn = inl(rd, f'RichData.{prop}')
+            ret = the_return([s_ for s_ in fn.body if isinstance(s_, ast.Return)])
+            ret = resolve(ret, fn)
             if isinstance(ret, ast.Call) and last_attr(ret.func) == 'float' and len(ret.args) == 1:
                 ret = ret.args[0]
             env = {'self.dx': 'dx'}
-            for base in ('self.shape', 'self.data.shape'):
-                env[f'{base}[0]'] = '((m : Int) : Rat)'
-                env[f'{base}[1]'] = '((n : Int) : Rat)'
+            env.update(shape_env(['self.shape', 'self.data.shape']))
             out.append(f'def {lean} (m n : Int) (dx : Rat) : Rat := {Tr(env, mode="rat").expr(ret)}')
         return '\n'.join(out)
     g.item('RichData.support', 'prysm/_richdata.py:RichData.support_x', lambda: get_def(rd, 'RichData.support_x'), rich_support,
@@ -1028,35 +1118,32 @@ def generate(repo):
     def resample():
         fn = inl(ft, 'fourier_resample')
         by = {'fftshift': 'npFftshiftBy', 'ifftshift': 'npIfftshiftBy'}
-        # only the statements up to the first top-level return are live
-        live = []
+        live = []                                    # only the statements up to the first top-level return are live
         for st in fn.body:
             live.append(st)
             if isinstance(st, ast.Return):
                 break
-        chains = []
-        for st in live:
-            for c in ast.walk(st):
-                if isinstance(c, ast.Call) and last_attr(c.func) in by and len(c.args) == 1 and isinstance(c.args[0], ast.Call) \
-                        and last_attr(c.args[0].func) in ('fft2', 'fftn') and c.args[0].args \
-                        and isinstance(c.args[0].args[0], ast.Call) and last_attr(c.args[0].args[0].func) in by:
-                    chains.append((last_attr(c.args[0].args[0].func), last_attr(c.func)))
-        if len(chains) != 1:
-            raise Untranslatable('fourier_resample: shift(fft2(shift(f))) chain not found')
-        shp = None
-        for st in live:
-            if isinstance(st, ast.Assign) and isinstance(st.targets[0], ast.Tuple) and ast.unparse(st.value) == 'f.shape':
-                shp = [t.id for t in st.targets[0].elts]
-        if shp is None or len(shp) != 2:
-            raise Untranslatable('no `m, n = f.shape`')
-        calls = [c for st in live for c in ast.walk(st) if isinstance(c, ast.Call) and last_attr(c.func) == 'idft2']
-        if len(calls) != 1 or len(calls[0].args) < 3 or not isinstance(calls[0].args[2], ast.Tuple) or len(calls[0].args[2].elts) != 2:
-            raise Untranslatable('no idft2(F, zoom, (M, N))')
         wrapped = ast.FunctionDef(name='_', args=fn.args, body=live, decorator_list=[], lineno=0)
-        env = {shp[0]: '((m : Int) : Rat)', shp[1]: '((n : Int) : Rat)', 'zoom[0]': 'z0', 'zoom[1]': 'z1'}
+        calls = [c for st in live for c in ast.walk(st) if isinstance(c, ast.Call) and last_attr(c.func) == 'idft2']
+        if len(calls) != 1:
+            raise Untranslatable('no single idft2 call')
+        b = bind_call(calls[0], get_def(ft, 'MatrixDFTExecutor.idft2'), skip_self=True)
+        spec = resolve(b['ary'], wrapped, stop=['f', 'zoom'])
+        if not (isinstance(spec, ast.Call) and last_attr(spec.func) in by and len(spec.args) == 1 and isinstance(spec.args[0], ast.Call)
+                and last_attr(spec.args[0].func) in ('fft2', 'fftn') and spec.args[0].args
+                and isinstance(spec.args[0].args[0], ast.Call) and last_attr(spec.args[0].args[0].func) in by
+                and [ast.unparse(a) for a in spec.args[0].args[0].args] == ['f']):
+            raise Untranslatable('the spectrum handed to idft2 is not shift(fft2(shift(f)))')
+        pre, post = last_attr(spec.args[0].args[0].func), last_attr(spec.func)
+        if ast.unparse(b['Q']) != 'zoom':
+            raise Untranslatable('idft2 is not given zoom as Q')
+        outs = resolve(b['samples_out'], wrapped, stop=['f', 'zoom'])
+        if not (isinstance(outs, (ast.Tuple, ast.List)) and len(outs.elts) == 2):
+            raise Untranslatable('samples_out is not a pair')
+        env = {'zoom[0]': 'z0', 'zoom[1]': 'z1'}
+        env.update(shape_env(['f.shape']))
         tr = Tr(env, mode='rat')
-        terms = [tr.expr(expand_locals(e, wrapped, stop=shp + ['zoom'])) for e in calls[0].args[2].elts]
-        pre, post = chains[0]
+        terms = [tr.expr(e) for e in outs.elts]
         return (f'def resamplePre (dim : Int) : Int := {by[pre]} dim\ndef resamplePost (dim : Int) : Int := {by[post]} dim\n'
                 f'def resampleOut0 (m n : Int) (z0 z1 : Rat) : Rat := {terms[0]}\n'
                 f'def resampleOut1 (m n : Int) (z0 z1 : Rat) : Rat := {terms[1]}')
@@ -1065,58 +1152,77 @@ def generate(repo):
            f'def resampleOut0 (m n : Int) (z0 z1 : Rat) : Rat := {M}.resampleOut m z0\n'
            f'def resampleOut1 (m n : Int) (z0 z1 : Rat) : Rat := {M}.resampleOut n z1')
 
-    # ---- derived RichData / Slices members: which coordinate reaches which argument (three-valued facts)
+    # ---- derived RichData / Slices members: which coordinate reaches which argument (three-valued facts).
+    #      `flow` follows tagged values through a guarded straight-line body: identity wrappers, tuple packing / unpacking
+    #      (nested too), order-preserving pair helpers and constant subscripts keep the tag; anything else drops it.
     def order_preserving(mod, name):
-        """does helper `name(a, b)` return `(a, b)` (its two parameters, in order) on every return?"""
         h = get_def(mod, name)
         pos, _ = params_of(h)
         rets = [r for r in ast.walk(h) if isinstance(r, ast.Return)]
         return bool(rets) and all(isinstance(r.value, ast.Tuple) and [ast.unparse(e) for e in r.value.elts] == pos[:2] for r in rets)
 
-    def origins(fn, seed):
-        """follow two coordinate values through the straight-line body of fn: {local name: tag}; identity wrappers
-        (ascontiguousarray / squeeze / asarray) and order-preserving pair helpers keep the tag; anything else drops it"""
-        tags = dict(seed)
-        keep = ('ascontiguousarray', 'squeeze', 'asarray', 'array')
+    def flow(fn, seeds, calls=None):
+        """returns tag_of after running over fn's body.  calls: {callee last name: fn(call_node, tag_of) -> tag}"""
+        tags = dict(seeds)
+        calls = calls or {}
+        keep = ('ascontiguousarray', 'squeeze', 'asarray', 'array', 'copy')
         pairs = {'optimize_xy_separable': co, 'fix_interp_pair': rd}
 
         def tag_of(e):
             t = ast.unparse(e)
             if t in tags:
                 return tags[t]
-            if isinstance(e, ast.Call) and last_attr(e.func) in keep and len(e.args) == 1:
-                return tag_of(e.args[0])
+            if isinstance(e, (ast.Tuple, ast.List)):
+                return ('tuple', tuple(tag_of(x) for x in e.elts))
+            if isinstance(e, ast.Subscript) and isinstance(e.slice, ast.Constant) and isinstance(e.slice.value, int):
+                base = tag_of(e.value)
+                return elem(base, e.slice.value, 2)
+            if isinstance(e, ast.Call):
+                nm = last_attr(e.func)
+                if nm in calls:
+                    return calls[nm](e, tag_of)
+                if nm in keep and len(e.args) == 1 and not e.keywords:
+                    return tag_of(e.args[0])
+                if nm in keep and isinstance(e.func, ast.Attribute) and not e.args:
+                    return tag_of(e.func.value)
+                if nm in pairs and len(e.args) == 2 and not e.keywords:
+                    if not order_preserving(pairs[nm], nm):
+                        raise Untranslatable(f'{nm} does not return its parameters in order')
+                    return ('tuple', (tag_of(e.args[0]), tag_of(e.args[1])))
             return None
-        for st in fn.body:
-            if not isinstance(st, ast.Assign) or len(st.targets) != 1:
-                continue
-            tg, v = st.targets[0], st.value
-            if isinstance(tg, ast.Tuple) and isinstance(v, ast.Tuple) and len(tg.elts) == len(v.elts):
-                new_ = [tag_of(e) for e in v.elts]
-                for t, n_ in zip(tg.elts, new_):
-                    tags[ast.unparse(t)] = n_
-            elif isinstance(tg, ast.Tuple) and isinstance(v, ast.Call) and last_attr(v.func) in pairs and len(v.args) == 2 \
-                    and len(tg.elts) == 2 and not v.keywords:
-                if not order_preserving(pairs[last_attr(v.func)], last_attr(v.func)):
-                    raise Untranslatable(f'{last_attr(v.func)} does not return its parameters in order')
-                new_ = [tag_of(e) for e in v.args]
-                for t, n_ in zip(tg.elts, new_):
-                    tags[ast.unparse(t)] = n_
-            elif isinstance(tg, ast.Tuple) and ast.unparse(v) in tags and isinstance(tags[ast.unparse(v)], tuple):
-                for k, t in enumerate(tg.elts):                      # `ux, x = slc.x`  (coords, values)
-                    tags[ast.unparse(t)] = tags[ast.unparse(v)] + (k,)
+
+        def elem(base, k, n_):
+            if isinstance(base, tuple) and base and base[0] == 'tuple':
+                return base[1][k] if -len(base[1]) <= k < len(base[1]) else None
+            if isinstance(base, tuple) and base and base[0] in ('pair', 'multi'):
+                return (base[1], k % n_ if k < 0 else k)
+            return None
+
+        def assign(tg, tag):
+            if isinstance(tg, (ast.Tuple, ast.List)):
+                for k, t in enumerate(tg.elts):
+                    assign(t, elem(tag, k, len(tg.elts)))
             else:
-                tags[ast.unparse(tg)] = tag_of(v)
-        return tags, tag_of
+                tags[ast.unparse(tg)] = tag
+        for st in flat(fn.body):
+            if isinstance(st, ast.Assign) and len(st.targets) == 1:
+                assign(st.targets[0], tag_of(st.value))
+        return tag_of
 
     def verdict(got, want):
-        """True when every binding is the wanted tag, False when a wanted tag sits on the wrong parameter, None otherwise"""
+        """True: every binding carries the wanted tag; False: the wanted tags are all there but on other parameters;
+        None: something is not recognised"""
         if got == want:
             return True
-        vals = list(want.values())
-        if all(g in vals for g in got.values()) and set(got) == set(want):
+        if set(got) == set(want) and None not in got.values() and sorted(map(repr, got.values())) == sorted(map(repr, want.values())):
             return False
         return None
+
+    def bound_tags(call, callee, tag_of, skip_self=False):
+        return {k: tag_of(v) for k, v in bind_call(call, callee, skip_self=skip_self).items()}
+
+    def all3(res):
+        return False if any(r is False for r in res) else (None if any(r is None for r in res) else True)
 
     def rich_polar():
         c2p = get_def(co, 'cart_to_polar')
@@ -1124,67 +1230,98 @@ def generate(repo):
         for prop, slot in (('r', 0), ('t', 1)):
             (fn,) = [n for n in get_def(rd, 'RichData').body if isinstance(n, ast.FunctionDef) and n.name == prop
                      and any(ast.unparse(d) == 'property' for d in n.decorator_list)]
-            (call,) = find_calls(fn, 'cart_to_polar')
-            b = {k: ast.unparse(v) for k, v in bind_call(call, c2p).items() if k in ('x', 'y')}
-            v = verdict(b, {'x': 'self.x', 'y': 'self.y'})
-            (asg,) = [s_ for s_ in ast.walk(fn) if isinstance(s_, ast.Assign) and s_.value is call]
-            tg = [ast.unparse(t) for t in asg.targets[0].elts]
+            seen = []
+
+            def polar(call, tag_of):
+                seen.append({k: v for k, v in bound_tags(call, c2p, tag_of).items() if k in ('x', 'y')})
+                return ('multi', 'polar')
+            tag_of = flow(fn, {'self.x': 'X', 'self.y': 'Y'}, {'cart_to_polar': polar})
             (ret,) = find_returns(fn)
-            if ast.unparse(ret) not in tg:
+            if len(seen) != 1:
                 return None
-            res += [v, tg.index(ast.unparse(ret)) == slot]
-        return None if any(r is None for r in res) else all(res)
+            res.append(verdict(seen[0], {'x': 'X', 'y': 'Y'}))
+            rt = tag_of(ret)
+            res.append(None if not (isinstance(rt, tuple) and rt[0] == 'polar') else rt == ('polar', slot))
+        return all3(res)
     g.fact('richPolarBinds', 'prysm/_richdata.py:RichData.r,t', rich_polar)
 
     def slices_polar():
         fn = get_def(rd, 'Slices.check_polar_calculated')
-        (call,) = find_calls(fn, 'uniform_cart_to_polar')
-        b = {k: ast.unparse(v) for k, v in bind_call(call, get_def(co, 'uniform_cart_to_polar')).items()}
-        return verdict(b, {'x': 'self._x', 'y': 'self._y', 'data': 'self._source'})
+        seen = []
+
+        def ucp_(call, tag_of):
+            seen.append(bound_tags(call, get_def(co, 'uniform_cart_to_polar'), tag_of))
+            return ('multi', 'upolar')
+        flow(fn, {'self._x': 'X', 'self._y': 'Y', 'self._source': 'D'}, {'uniform_cart_to_polar': ucp_})
+        return verdict(seen[0], {'x': 'X', 'y': 'Y', 'data': 'D'}) if len(seen) == 1 else None
     g.fact('slicesPolarBinds', 'prysm/_richdata.py:Slices.check_polar_calculated', slices_polar)
 
     def exact_1d():
         fn = get_def(rd, 'RichData._make_interp_function_xy1d')
-        slc = [ast.unparse(s_.targets[0]) for s_ in fn.body if isinstance(s_, ast.Assign) and isinstance(s_.value, ast.Call)
-               and ast.unparse(s_.value.func) == 'self.slices']
-        if len(slc) != 1:
-            return None
-        tags, tag_of = origins(fn, {f'{slc[0]}.x': ('x',), f'{slc[0]}.y': ('y',)})
+        seeds = {'self.slices().x': ('pair', 'x'), 'self.slices().y': ('pair', 'y')}
+        for st in flat(fn.body):
+            if isinstance(st, ast.Assign) and isinstance(st.value, ast.Call) and ast.unparse(st.value.func) == 'self.slices' \
+                    and isinstance(st.targets[0], ast.Name):
+                seeds[f'{st.targets[0].id}.x'] = ('pair', 'x')
+                seeds[f'{st.targets[0].id}.y'] = ('pair', 'y')
+
+        def interp(call, tag_of):
+            a = {k.arg: k.value for k in call.keywords}
+            xs = call.args[0] if len(call.args) > 0 else a.get('x')
+            ys = call.args[1] if len(call.args) > 1 else a.get('y')
+            if xs is None or ys is None:
+                return None
+            return ('interp', tag_of(xs), tag_of(ys))
+        tag_of = flow(fn, seeds, {'interp1d': interp})
         res = []
         for ax in 'xy':
-            (asg,) = [s_ for s_ in ast.walk(fn) if isinstance(s_, ast.Assign) and ast.unparse(s_.targets[0]) == f'self.interpf_{ax}']
-            if not (isinstance(asg.value, ast.Call) and last_attr(asg.value.func) == 'interp1d' and len(asg.value.args) >= 2):
-                return None
-            got = {'coords': tag_of(asg.value.args[0]), 'values': tag_of(asg.value.args[1])}
-            # both arguments traced back to a slice member: right iff they are (coords, values) of THIS axis' slice
-            res.append(None if None in got.values() else got == {'coords': (ax, 0), 'values': (ax, 1)})
+            t = tag_of(ast.parse(f'self.interpf_{ax}', mode='eval').body)
+            if not (isinstance(t, tuple) and t[0] == 'interp') or None in t[1:]:
+                res.append(None)
+            else:
+                res.append(t[1:] == ((ax, 0), (ax, 1)))
             ex = get_def(rd, f'RichData.exact_{ax}')
+            par = params_of(ex, skip_self=True)[0][0]
+            tg2 = flow(ex, {'self.interpf_x': 'FX', 'self.interpf_y': 'FY', par: 'ARG'},
+                       {'_make_interp_function_xy1d': lambda c_, t_: ('tuple', ('FX', 'FY'))})
             (ret,) = find_returns(ex)
-            res.append(isinstance(ret, ast.Call) and ast.unparse(ret.func) == f'self.interpf_{ax}'
-                       and [ast.unparse(a) for a in ret.args] == [params_of(ex, skip_self=True)[0][0]])
-        return None if any(r is None for r in res) else all(res)
+            if not (isinstance(ret, ast.Call) and len(ret.args) == 1):
+                res.append(None)
+            else:
+                f_, a_ = tg2(ret.func), tg2(ret.args[0])
+                res.append(None if f_ not in ('FX', 'FY') or a_ != 'ARG' else f_ == 'F' + ax.upper())
+        return all3(res)
     g.fact('exact1dBinds', 'prysm/_richdata.py:RichData.exact_x,exact_y', exact_1d)
 
     def exact_2d():
         fn = get_def(rd, 'RichData._make_interp_function_2d')
-        tags, tag_of = origins(fn, {'self.x': 'X', 'self.y': 'Y'})
-        (call,) = [c for c in ast.walk(fn) if isinstance(c, ast.Call) and last_attr(c.func) == 'RegularGridInterpolator']
-        if not (isinstance(call.args[0], ast.Tuple) and len(call.args[0].elts) == 2 and ast.unparse(call.args[1]) == 'self.data'):
-            return None
-        got = {k: tag_of(e) for k, e in zip(('axis0', 'axis1'), call.args[0].elts)}
-        res = [verdict(got, {'axis0': 'Y', 'axis1': 'X'}) if None not in got.values() else None]
+
+        def rgi(call, tag_of):
+            a = {k.arg: k.value for k in call.keywords}
+            pts = call.args[0] if len(call.args) > 0 else a.get('points')
+            vals = call.args[1] if len(call.args) > 1 else a.get('values')
+            if pts is None or vals is None:
+                return None
+            return ('rgi', tag_of(pts), tag_of(vals))
+        tag_of = flow(fn, {'self.x': 'X', 'self.y': 'Y', 'self.data': 'D'}, {'RegularGridInterpolator': rgi})
+        t = tag_of(ast.parse('self.interpf_2d', mode='eval').body)
+        res = []
+        if not (isinstance(t, tuple) and t[0] == 'rgi' and isinstance(t[1], tuple) and t[1][0] == 'tuple' and None not in t[1][1] and t[2] == 'D'):
+            res.append(None)
+        else:
+            res.append(t[1][1] == ('Y', 'X'))
         ex = get_def(rd, 'RichData.exact_xy')
-        tags2, tag_of2 = origins(ex, {'x': 'X', 'y': 'Y'})
+        tg2 = flow(ex, {'x': 'X', 'y': 'Y', 'self.interpf_2d': 'F2'}, {'_make_interp_function_2d': lambda c_, t_: 'F2'})
         (ret,) = find_returns(ex)
-        if not (isinstance(ret, ast.Call) and ast.unparse(ret.func) == 'self.interpf_2d' and isinstance(ret.args[0], ast.Tuple)):
-            return None
-        got2 = {k: tag_of2(e) for k, e in zip(('axis0', 'axis1'), ret.args[0].elts)}
-        res.append(verdict(got2, {'axis0': 'Y', 'axis1': 'X'}) if None not in got2.values() else None)
-        return None if any(r is None for r in res) else all(res)
+        if not (isinstance(ret, ast.Call) and ret.args and tg2(ret.func) == 'F2'):
+            res.append(None)
+        else:
+            q = tg2(ret.args[0])
+            res.append(None if not (isinstance(q, tuple) and q[0] == 'tuple' and None not in q[1]) else q[1] == ('Y', 'X'))
+        return all3(res)
     g.fact('exact2dBinds', 'prysm/_richdata.py:RichData.exact_xy', exact_2d)
 
-    # ---- propagation.focus / unfocus: the Q-pad in front of the FFT is fttools.pad2d(array=wavefunction, Q=Q) and its result is
-    #      what the shift / FFT chain consumes when Q != 1
+    # ---- propagation.focus / unfocus: the Q-pad in front of the FFT is fttools.pad2d(array=wavefunction, Q=Q)
     def focus_pad():
         res = []
         for fname in ('focus', 'unfocus'):
@@ -1192,10 +1329,82 @@ def generate(repo):
             calls = find_calls(fn, 'pad2d')
             if len(calls) != 1:
                 return None
-            got = {k: ast.unparse(v) for k, v in bind_call(calls[0], get_def(ft, 'pad2d')).items()}
-            res.append(verdict(got, {'array': 'wavefunction', 'Q': 'Q'}))
-        return None if any(r is None for r in res) else all(res)
+            got = {k: ast.unparse(resolve(v, fn)) for k, v in bind_call(calls[0], get_def(ft, 'pad2d')).items()}
+            if set(got) - {'array', 'Q'}:
+                return None
+            res.append(verdict(got, {'array': 'wavefunction', 'Q': 'Q'}) if set(got) == {'array', 'Q'} else None)
+        return all3(res)
     g.fact('focusPadBinds', 'prysm/propagation.py:focus,unfocus', focus_pad)
+
+    # ---- polar resampling index glue: uniform_cart_to_polar lays rho along one axis and phi along the other (meshgrid), the
+    #      azimuthal statistics of Slices reduce over the phi axis and estimate_size searches along the rho axis
+    def polar_axes():
+        fn = get_def(co, 'uniform_cart_to_polar')
+        lens = {}
+        for nm in ('rho', 'phi'):
+            v = find_assign(fn, nm, which=-1)
+            if not (isinstance(v, ast.Call) and last_attr(v.func) == 'linspace' and len(v.args) == 3):
+                raise Untranslatable(f'{nm} is not a linspace')
+            lens[nm] = Tr({'len(x)': 'n', 'len(y)': 'm', 'x.size': 'n', 'y.size': 'm', 'x.shape[0]': 'n', 'y.shape[0]': 'm'}).expr(v.args[2])
+            if nm == 'rho' and ast.unparse(v.args[0]) not in ('0', '0.0'):
+                raise Untranslatable('rho does not start at 0')
+        mg = [st for st in fn.body if isinstance(st, ast.Assign) and isinstance(st.value, ast.Call) and last_attr(st.value.func) == 'meshgrid']
+        if len(mg) != 1 or len(mg[0].value.args) != 2 or not isinstance(mg[0].targets[0], ast.Tuple):
+            raise Untranslatable('meshgrid form')
+        kw = {k.arg: ast.unparse(k.value) for k in mg[0].value.keywords}
+        if set(kw) - {'indexing'}:
+            raise Untranslatable('meshgrid keywords')
+        ij = kw.get('indexing', "'xy'") == "'ij'"
+        a = [ast.unparse(e) for e in mg[0].value.args]
+        if sorted(a) != ['phi', 'rho']:
+            raise Untranslatable('meshgrid arguments')
+        # numpy: 'xy': out[i, j] = a0[j] (both outputs have a0 along axis 1); 'ij': a0 along axis 0
+        axis_of = {a[0]: 0 if ij else 1, a[1]: 1 if ij else 0}
+        tg = [ast.unparse(t) for t in mg[0].targets[0].elts]
+        (p2c,) = find_calls(fn, 'polar_to_cart')
+        b = {k: ast.unparse(v) for k, v in bind_call(p2c, get_def(co, 'polar_to_cart')).items()}
+        if b != {'rho': tg[a.index('rho')], 'phi': tg[a.index('phi')]}:
+            raise Untranslatable('polar_to_cart is not given (mesh of rho, mesh of phi)')
+        out = [f'def polarRhoAxis : Int := ({axis_of["rho"]} : Int)', f'def polarPhiAxis : Int := ({axis_of["phi"]} : Int)',
+               f'def polarRhoLen (m n : Int) : Int := {lens["rho"]}', f'def polarPhiLen (m n : Int) : Int := {lens["phi"]}']
+        # Slices.az*: the axis every statistic reduces over
+        names = ('azavg', 'azmedian', 'azmin', 'azmax', 'azpv', 'azvar', 'azstd')
+        own = {}
+        for prop in names:
+            (f_,) = [n_ for n_ in get_def(rd, 'Slices').body if isinstance(n_, ast.FunctionDef) and n_.name == prop]
+            red_calls = [c for c in ast.walk(f_) if isinstance(c, ast.Call) and last_attr(c.func).startswith('nan')
+                         and c.args and ast.unparse(c.args[0]) == 'self._source_polar']
+            own[prop] = ({ast.unparse(k.value) for c in red_calls for k in c.keywords if k.arg == 'axis'}
+                         | {ast.unparse(c.args[1]) for c in red_calls if len(c.args) > 1},
+                         {n_.attr for n_ in ast.walk(f_) if isinstance(n_, ast.Attribute) and ast.unparse(n_.value) == 'self' and n_.attr in names})
+        red = []
+        for prop in names:
+            axes = set(own[prop][0])
+            for dep in own[prop][1]:                # a statistic built from other statistics (azpv = azmax - azmin) inherits their axis
+                axes |= own[dep][0]
+            if len(axes) != 1:
+                raise Untranslatable(f'{prop}: reduction axis')
+            red.append(f'({int(axes.pop())} : Int)')
+        out.append(f'def azReduceAxes : List Int := [{", ".join(red)}]')
+        # estimate_size: argmax along ..., mask.shape[...]
+        es = get_def(psf, 'estimate_size')
+        ax = sorted({ast.unparse(k.value) for c in ast.walk(es) if isinstance(c, ast.Call) and last_attr(c.func) == 'argmax'
+                     for k in c.keywords if k.arg == 'axis'})
+        shp = sorted({ast.unparse(n_.slice) for n_ in ast.walk(es) if isinstance(n_, ast.Subscript) and ast.unparse(n_.value) == 'mask.shape'})
+        rev = [n_ for n_ in ast.walk(es) if isinstance(n_, ast.Subscript) and ast.unparse(n_.value) == 'mask' and isinstance(n_.slice, ast.Tuple)]
+        if len(ax) != 1 or len(shp) != 1 or len(rev) != 1:
+            raise Untranslatable('estimate_size: search axis')
+        revax = [k for k, e in enumerate(rev[0].slice.elts) if isinstance(e, ast.Slice) and e.step is not None and ast.unparse(e.step) == '-1']
+        if len(revax) != 1:
+            raise Untranslatable('estimate_size: reversed axis')
+        out.append(f'def estSizeAxes : List Int := [({int(ax[0])} : Int), ({int(shp[0])} : Int), ({revax[0]} : Int)]')
+        return '\n'.join(out)
+    g.item('polar.axes', 'prysm/coordinates.py:uniform_cart_to_polar; Slices.az*; psf.estimate_size',
+           lambda: get_def(co, 'uniform_cart_to_polar'), polar_axes,
+           f'def polarRhoAxis : Int := {M}.polarRhoAxis\ndef polarPhiAxis : Int := {M}.polarPhiAxis\n'
+           f'def polarRhoLen (m n : Int) : Int := {M}.polarRhoLen m n\ndef polarPhiLen (m n : Int) : Int := {M}.polarPhiLen m n\n'
+           f'def azReduceAxes : List Int := List.replicate 7 {M}.polarPhiAxis\n'
+           f'def estSizeAxes : List Int := List.replicate 3 {M}.polarRhoAxis')
 
     return g.finish()
 
